@@ -314,6 +314,10 @@ func ruleSizeBudget(c *Ctx) {
 		for _, call := range w.callsTo(f, "types#MaxDataBytes") {
 			a := callArgs(call)
 			c.Check(w.expr(a[0]) == "state.ConsensusParams.Block.MaxBytes" && strings.HasSuffix(w.expr(a[1]), ".PendingEvidence(state.ConsensusParams.Evidence.MaxBytes)#1"), "state.BlockExecutor.CreateProposalBlock budget inputs", w.ipos(call), "block max bytes and the size of the evidence actually included", w.callStr(call))
+			// the commit budgeted for is the one that goes into the block: the *last* commit, which has one
+			// signature slot per validator of the previous height (validateBlock requires exactly that)
+			vc := w.expr(a[2])
+			c.Check(vc == "state.LastValidators.Size()" || vc == "len(commit.Signatures)", "state.BlockExecutor.CreateProposalBlock budgets the commit by the validator set that signed it", w.ipos(call), vc, "commit size is budgeted with "+vc+", but the block carries the last commit (one slot per validator of state.LastValidators): after the set shrinks the block exceeds Block.MaxBytes")
 		}
 		for _, call := range w.callsTo(f, "mempool#Mempool.ReapMaxBytesMaxGas") {
 			a := callArgs(call)
@@ -336,5 +340,5 @@ func init() {
 	register("C06", "R3", "K1", "block time is the power-weighted median over the signatures that are counted", 5, ruleMedianTime)
 	register("C06", "R4", "K7", "no nondeterminism source is reachable from the state transition, hashing and validator-set arithmetic", 1, ruleNoNondeterminism)
 	register("C06", "R5", "K4", "results hash keeps only deterministic fields; the next state sets every field from (state, header, responses)", 30, ruleDeterministicResults)
-	register("C06", "R6", "K11", "size budget for proposals", 5, ruleSizeBudget)
+	register("C06", "R6", "K11", "size budget for proposals", 6, ruleSizeBudget)
 }
